@@ -1265,6 +1265,14 @@ def opt_map(vm, m, callee, args):
     return SymEnum('Option', alts)
 
 
+@native(r'^std::option::Option::<.*>::unwrap_or$', 'Option::unwrap_or(default)')
+def opt_unwrap_or(vm, m, callee, args):
+    o = dv(vm, args[0]) if isinstance(args[0], Ref) else args[0]
+    if isinstance(o, Enum):
+        return o.fields[0] if o.variant == 'Some' else args[1]
+    raise Unsupported('unwrap_or on a symbolic Option')
+
+
 @native(r'^std::option::Option::<.*>::unwrap_or_else::<', 'Option::unwrap_or_else')
 def opt_unwrap_or_else(vm, m, callee, args):
     o = args[0]
